@@ -9,7 +9,7 @@ class ExprGen:
         self.g = Gen(rng, rigid=rigid, maxw=maxw)
         self.rigid = rigid
         self.malformed = malformed
-        self.ops = ops or ["then", "tensor", "dagger", "slice", "getitem", "interchange",
+        self.ops = ops or ["then", "tensor", "dagger", "slice", "slicerev", "getitem", "interchange",
                            "normal_form", "swap", "perm"] + (["cups", "caps"] if rigid else [])
 
     # every generator returns (expr, dom, cod, nboxes) with dom/cod None when not tracked
@@ -64,6 +64,12 @@ class ExprGen:
             s = r.choice([None, r.randint(lo, hi)])
             t = r.choice([None, r.randint(lo, hi)])
             return ("slice", a, s, t), None, None, an
+        if op == "slicerev":
+            a, ad, ac, an = self.expr(depth - 1)
+            lo, hi = -an - 2, an + 2
+            s = r.choice([None, r.randint(lo, hi)])
+            t = r.choice([None, r.randint(lo, hi)])
+            return ("slicerev", a, s, t), None, None, an
         if op == "getitem":
             a, ad, ac, an = self.expr(depth - 1)
             i = r.randint(-an - 1, an) if r.random() < self.malformed or an == 0 \
